@@ -341,11 +341,130 @@ pub open spec fn first_table_ok(g: &Grammar, fs: Seq<Set<SymbolIndex>>) -> bool 
     &&& fs[g.empty_index.0 as int].contains(g.empty_index)
 }
 
+// ---- C01/C04: soundness of the FIRST table -- no spurious FIRST symbol -------------------------------------------------
+/// membership form of FIRST(alpha) over a table given as a predicate f(symbol, a)
+pub open spec fn fsp(f: spec_fn(int, SymbolIndex) -> bool, syms: Seq<SymbolIndex>, e: SymbolIndex, a: SymbolIndex) -> bool
+    decreases syms.len(),
+{
+    if syms.len() == 0 { a == e }
+    else { (f(syms[0].0 as int, a) && a != e) || (f(syms[0].0 as int, e) && fsp(f, syms.drop_first(), e, a)) }
+}
+pub open spec fn table_pred(fs: Seq<Set<SymbolIndex>>) -> spec_fn(int, SymbolIndex) -> bool { |x: int, b: SymbolIndex| fs[x].contains(b) }
+
+pub proof fn lemma_fsp_is_first_seq(fs: Seq<Set<SymbolIndex>>, syms: Seq<SymbolIndex>, e: SymbolIndex, a: SymbolIndex)
+    ensures first_seq(fs, syms, e).contains(a) == fsp(table_pred(fs), syms, e, a),
+    decreases syms.len(),
+{
+    if syms.len() > 0 { lemma_fsp_is_first_seq(fs, syms.drop_first(), e, a); }
+}
+pub proof fn lemma_fsp_mono(f: spec_fn(int, SymbolIndex) -> bool, h: spec_fn(int, SymbolIndex) -> bool, bound: int, syms: Seq<SymbolIndex>, e: SymbolIndex, a: SymbolIndex)
+    requires
+        forall|x: int, b: SymbolIndex| 0 <= x < bound && #[trigger] f(x, b) ==> h(x, b),
+        forall|i: int| 0 <= i < syms.len() ==> ((#[trigger] syms[i]).0 as int) < bound,
+        fsp(f, syms, e, a),
+    ensures fsp(h, syms, e, a),
+    decreases syms.len(),
+{
+    if syms.len() > 0 {
+        assert((syms[0].0 as int) < bound);
+        if f(syms[0].0 as int, e) && fsp(f, syms.drop_first(), e, a) {
+            assert forall|i: int| 0 <= i < syms.drop_first().len() implies ((#[trigger] syms.drop_first()[i]).0 as int) < bound by {
+                assert(syms.drop_first()[i] == syms[i + 1]);
+            }
+            lemma_fsp_mono(f, h, bound, syms.drop_first(), e, a);
+        }
+    }
+}
+
+/// the FIRST equations start from: a terminal begins with itself, EMPTY derives EMPTY
+pub open spec fn base_has(g: &Grammar, x: int, a: SymbolIndex) -> bool {
+    (0 <= x < nterm(g) && a.0 == x) || (x == g.empty_index.0 && a == g.empty_index)
+}
+/// a is in the n-th Kleene iterate of the FIRST equations at symbol x: it is justified by at most n nested applications
+/// of "FIRST(rhs p) is contained in FIRST(lhs p)".  The least solution of the equations is the union over all n.
+pub open spec fn kleene(g: &Grammar, n: nat, x: int, a: SymbolIndex) -> bool
+    decreases n, 0int,
+{
+    if n == 0 { base_has(g, x, a) }
+    else {
+        kleene(g, (n - 1) as nat, x, a)
+        || exists|p: int| 0 <= p < g.productions.0@.len() && #[trigger] lhs_sym(g, p) == x
+            && fsp(kleene_pred(g, (n - 1) as nat), rhs_syms(&g.productions.0@[p]), g.empty_index, a)
+    }
+}
+/// the n-th iterate as a table predicate
+pub open spec fn kleene_pred(g: &Grammar, n: nat) -> spec_fn(int, SymbolIndex) -> bool
+    decreases n, 1int,
+{
+    |y: int, b: SymbolIndex| kleene(g, n, y, b)
+}
+/// every entry of the table is justified by n applications of the equations: the table has no spurious FIRST symbol
+pub open spec fn sound_upto(g: &Grammar, fs: Seq<Set<SymbolIndex>>, n: nat) -> bool {
+    forall|x: int, a: SymbolIndex| 0 <= x < fs.len() && (#[trigger] fs[x].contains(a)) ==> kleene(g, n, x, a)
+}
+
+/// one step of the fixpoint loop keeps the table sound (one more application of the equations)
+pub proof fn lemma_sound_step(g: &Grammar, before: Seq<Set<SymbolIndex>>, n: nat, p: int)
+    requires
+        sound_upto(g, before, n), 0 <= p < g.productions.0@.len(), 0 <= lhs_sym(g, p) < before.len(),
+        forall|i: int| 0 <= i < rhs_syms(&g.productions.0@[p]).len() ==> ((#[trigger] rhs_syms(&g.productions.0@[p])[i]).0 as int) < before.len(),
+    ensures
+        sound_upto(g, before.update(lhs_sym(g, p), before[lhs_sym(g, p)].union(first_seq(before, rhs_syms(&g.productions.0@[p]), g.empty_index))), n + 1),
+{
+    let e = g.empty_index;
+    let syms = rhs_syms(&g.productions.0@[p]);
+    let l = lhs_sym(g, p);
+    let after = before.update(l, before[l].union(first_seq(before, syms, e)));
+    let kn = kleene_pred(g, n);
+    assert forall|x: int, a: SymbolIndex| 0 <= x < after.len() && (#[trigger] after[x].contains(a)) implies kleene(g, n + 1, x, a) by {
+        if x != l || before[l].contains(a) {
+            assert(before[x].contains(a));
+            assert(kleene(g, n, x, a));
+        } else {
+            assert(first_seq(before, syms, e).contains(a));
+            lemma_fsp_is_first_seq(before, syms, e, a);
+            assert forall|y: int, b: SymbolIndex| 0 <= y < before.len() && #[trigger] table_pred(before)(y, b) implies kn(y, b) by {
+                assert(before[y].contains(b));
+            }
+            lemma_fsp_mono(table_pred(before), kn, before.len() as int, syms, e, a);
+            assert(lhs_sym(g, p) == x);
+        }
+    }
+}
+
+/// ... and a table that contains the base and is closed contains every Kleene iterate: together with soundness, the table
+/// first_sets returns is EXACTLY the least solution of the FIRST equations
+pub proof fn lemma_closed_contains_kleene(g: &Grammar, fs: Seq<Set<SymbolIndex>>, n: nat, x: int, a: SymbolIndex)
+    requires
+        grammar_wf(g), first_table_ok(g, fs), closed_upto(g, fs, g.productions.0@.len() as int),
+        0 <= x < nsym(g), kleene(g, n, x, a),
+    ensures fs[x].contains(a),
+    decreases n,
+{
+    if n == 0 {
+        if 0 <= x < nterm(g) && a.0 == x { assert(fs[x].contains(SymbolIndex(x as usize))); assert(a == SymbolIndex(x as usize)); }
+    } else if kleene(g, (n - 1) as nat, x, a) {
+        lemma_closed_contains_kleene(g, fs, (n - 1) as nat, x, a);
+    } else {
+        let e = g.empty_index;
+        let km = kleene_pred(g, (n - 1) as nat);
+        let p = choose|p: int| 0 <= p < g.productions.0@.len() && #[trigger] lhs_sym(g, p) == x && fsp(km, rhs_syms(&g.productions.0@[p]), e, a);
+        let syms = rhs_syms(&g.productions.0@[p]);
+        assert forall|y: int, b: SymbolIndex| 0 <= y < nsym(g) && #[trigger] km(y, b) implies table_pred(fs)(y, b) by {
+            lemma_closed_contains_kleene(g, fs, (n - 1) as nat, y, b);
+        }
+        lemma_fsp_mono(km, table_pred(fs), nsym(g), syms, e, a);
+        lemma_fsp_is_first_seq(fs, syms, e, a);
+        assert(first_seq(fs, syms, e).subset_of(fs[lhs_sym(g, p)]));
+    }
+}
+
 //@fn TBL first_sets ret=r foreach attr=verifier::loop_isolation(false) attr=verifier::exec_allows_no_decreases_clause
 //@  |     requires grammar_wf(grammar),
 //@  |     ensures
 //@  |         first_table_ok(grammar, fs_view(&r)), // [C01]
 //@  |         closed_upto(grammar, fs_view(&r), grammar.productions.0@.len() as int), // [C01]
+//@  |         exists|n: nat| sound_upto(grammar, fs_view(&r), n), // [C01] no spurious FIRST symbol
 //@  before 1 "let mut first_sets = SymbolVec::new();"
 //@  |     proof { lemma_symbol_index_is_a_btree_key(); }
 //@  |     broadcast use axiom_into_items_btree_set;
@@ -354,7 +473,7 @@ pub open spec fn first_table_ok(g: &Grammar, fs: Seq<Set<SymbolIndex>>) -> bool 
 //@  |             it.seq().len() == nterm(grammar),
 //@  |             forall|i: int| 0 <= i < it.seq().len() ==> *it.seq()[i] == grammar.terminals.0@[i],
 //@  |             fs_view(&first_sets).len() == it.index(),
-//@  |             forall|t: int| 0 <= t < fs_view(&first_sets).len() ==> (#[trigger] fs_view(&first_sets)[t]).contains(SymbolIndex(t as usize)),
+//@  |             forall|t: int| 0 <= t < fs_view(&first_sets).len() ==> (#[trigger] fs_view(&first_sets)[t]) =~= Set::empty().insert(SymbolIndex(t as usize)),
 //@  after 1 "let mut new_set = Firsts::new();"
 //@  |         let ghost v0 = fs_view(&first_sets);
 //@  |         proof { assert(*terminal == grammar.terminals.0@[it.index()]); }
@@ -364,7 +483,8 @@ pub open spec fn first_table_ok(g: &Grammar, fs: Seq<Set<SymbolIndex>>) -> bool 
 //@  |         invariant
 //@  |             it1.seq().len() == grammar.nonterminals.0@.len(),
 //@  |             fs_view(&first_sets).len() == nterm(grammar) + it1.index(),
-//@  |             forall|t: int| 0 <= t < nterm(grammar) ==> (#[trigger] fs_view(&first_sets)[t]).contains(SymbolIndex(t as usize)),
+//@  |             forall|t: int| 0 <= t < nterm(grammar) ==> (#[trigger] fs_view(&first_sets)[t]) =~= Set::empty().insert(SymbolIndex(t as usize)),
+//@  |             forall|t: int| nterm(grammar) <= t < fs_view(&first_sets).len() ==> (#[trigger] fs_view(&first_sets)[t]) =~= Set::empty(),
 //@  before 1 "first_sets.push(Firsts::new())"
 //@  |         let ghost v1 = fs_view(&first_sets);
 //@  after 1 "first_sets.push(Firsts::new())"
@@ -373,8 +493,18 @@ pub open spec fn first_table_ok(g: &Grammar, fs: Seq<Set<SymbolIndex>>) -> bool 
 //@  |     let ghost v2 = fs_view(&first_sets);
 //@  after 1 "first_sets[grammar.empty_index].insert(grammar.empty_index);"
 //@  |     proof { assert(fs_view(&first_sets) =~= v2.update(grammar.empty_index.0 as int, v2[grammar.empty_index.0 as int].insert(grammar.empty_index))); }
+//@  |     // the number of applications of the FIRST equations that justify the table so far
+//@  |     let ghost mut kn: nat = 0;
+//@  |     proof {
+//@  |         assert forall|x: int, a: SymbolIndex| 0 <= x < fs_view(&first_sets).len() && (#[trigger] fs_view(&first_sets)[x].contains(a)) implies kleene(grammar, 0, x, a) by {
+//@  |             if x < nterm(grammar) { assert(v2[x] =~= Set::empty().insert(SymbolIndex(x as usize))); }
+//@  |             else if x != grammar.empty_index.0 { assert(v2[x] =~= Set::empty()); }
+//@  |             else { assert(v2[x] =~= Set::empty()); }
+//@  |         }
+//@  |     }
 //@  loop 2
 //@  |         invariant
+//@  |             sound_upto(grammar, fs_view(&first_sets), kn),
 //@  |             first_table_ok(grammar, fs_view(&first_sets)),
 //@  |             !additions ==> closed_upto(grammar, fs_view(&first_sets), grammar.productions.0@.len() as int),
 //@  after 1 "additions = false;"
@@ -384,10 +514,12 @@ pub open spec fn first_table_ok(g: &Grammar, fs: Seq<Set<SymbolIndex>>) -> bool 
 //@  |                 it3.seq().len() == grammar.productions.0@.len(),
 //@  |                 forall|i: int| 0 <= i < it3.seq().len() ==> *it3.seq()[i] == grammar.productions.0@[i],
 //@  |                 first_table_ok(grammar, fs_view(&first_sets)),
+//@  |                 sound_upto(grammar, fs_view(&first_sets), kn),
 //@  |                 !additions ==> fs_view(&first_sets) == fs0 && closed_upto(grammar, fs0, it3.index() as int),
 //@  after 1 "let lhs_len = first_sets[lhs_nonterm].len();"
 //@  |             let ghost before = fs_view(&first_sets);
 //@  |             let ghost add = rhs_firsts@;
+//@  |             let ghost pidx = it3.index() as int;
 //@  |             proof {
 //@  |                 assert(*production == grammar.productions.0@[it3.index()]);
 //@  |                 assert(lhs_nonterm.0 == lhs_sym(grammar, it3.index()));
@@ -401,7 +533,9 @@ pub open spec fn first_table_ok(g: &Grammar, fs: Seq<Set<SymbolIndex>>) -> bool 
 //@  |                     assert(before[lhs_nonterm.0 as int].union(add) =~= before[lhs_nonterm.0 as int]);
 //@  |                     assert(fs_view(&first_sets) =~= before);
 //@  |                 }
+//@  |                 lemma_sound_step(grammar, before, kn, pidx);
 //@  |             }
+//@  |             proof { kn = kn + 1; }
 //@end
 
 
